@@ -669,6 +669,22 @@ func (p c08) faultPhase(ctx *core.RunCtx, g *c08Gen, e *c08Entry, v ser, data []
 			ctx.Nontrivial = true
 			ctx.Event("fault sink-failure %s at %d/%d via %s", e.Name, k, L, wrNames[kind])
 			p.failingWrite(ctx, e, v, L, k, kind, ch.Bool("sink-partial"), drawBufSize(ch))
+			if ch.Chance("small-slice-buffer", 1, 3) {
+				// the library's own slice-backed writer, too small for the object: as a slice of k bytes, or as a
+				// slice of k bytes cut from a larger array (length below capacity)
+				backing := make([]byte, k, k+ch.Draw("slice-buffer-extra-cap", 2)*L)
+				res := guarded(false, func() (int64, error) { return v.(io.WriterTo).WriteTo(buffer.NewBuffer(backing)) })
+				ctx.Count("fault.sink-failure", 1)
+				ctx.Count("oracle.sink-failure", 1)
+				if res.panicked {
+					ctx.Fail("write-fault", e.Name+"|WriteTo(buffer.Buffer)|too-small|panic", "WriteTo into a buffer.Buffer over a %d-byte slice (capacity %d) for an object of %d bytes panicked in %s: %s", k, cap(backing), L, res.site, res.msg)
+					return
+				}
+				if res.err == nil && k < L {
+					ctx.Fail("write-fault", e.Name+"|WriteTo(buffer.Buffer)|too-small|accepted", "WriteTo into a buffer.Buffer over a %d-byte slice (capacity %d) returned nil for an object of %d bytes (n=%d)", k, cap(backing), L, res.n)
+					return
+				}
+			}
 		case 2: // header corruption
 			p.corrupt(ctx, g, e, v, data)
 		}
